@@ -113,16 +113,19 @@ def rule_r1(prog, res) -> None:
         param = be.param_names()[1]
         # (tag, edges, closed); same length.  D differs from A by less than any tolerance-based comparison resolves
         A, B, C, D = ("B", (0.1, 0.3, 0.9), "right"), ("B", (0.1, 0.7, 0.9), "right"), ("B", (0.1, 0.3, 0.9), "left"), ("B", (0.1, 0.3000000001, 0.9), "right")
-        table = [((None, None), True), ((None, A), False), ((A, None), False), ((A, A), True), ((A, B), False), ((A, C), False), ((C, A), False), ((A, D), False), ((D, A), False)]
+        # E continues A by one more bin: equal on the common prefix, so a pairwise comparison that stops at the shorter
+        # sequence (zip) cannot tell them apart
+        E = ("B", (0.1, 0.3, 0.9, 1.2), "right")
+        table = [((None, None), True), ((None, A), False), ((A, None), False), ((A, A), True), ((A, B), False), ((A, C), False), ((C, A), False), ((A, D), False), ((D, A), False), ((A, E), False), ((E, A), False), ((E, E), True)]
 
         def describe(text, v, env):
             env[text] = v
             if v is not None:
                 env[f"{text}.edges"] = v[1]
                 env[f"{text}.closed"] = v[2]
-                env[f"len({text})"] = 5
-                env[f"len({text}.edges)"] = 6
-                env[f"{text}.num_bins"] = 5
+                env[f"len({text})"] = len(v[1]) - 1
+                env[f"len({text}.edges)"] = len(v[1])
+                env[f"{text}.num_bins"] = len(v[1]) - 1
 
         for (sv, pv), want in table:
             env = {}
